@@ -3,6 +3,7 @@
 # Confirms a seeded change in a scratch worktree of /repo HEAD (outside /repo and /verif):
 #   1. patch only:  workspace builds, `cargo test -p h3 --offline` passes (flaky pair tolerated)
 #   2. patch + demo: demo fails      3. demo only: demo passes
+# DEMO_CMD (env) replaces the default demo command `cargo test -p h3 --offline --lib <filter>`.
 # Writes <dir>/confirm.log; removes the worktree afterwards. Shared target dir to save rebuilds.
 set -u
 D="$(cd "$1" && pwd)"; FILTER="$2"; shift 2
@@ -21,8 +22,8 @@ echo "== patch only: cargo test -p h3 --lib" >> "$LOG"
 cargo test -p h3 --offline --lib 2>&1 | grep -E "^test result|FAILED|failed" >> "$LOG"
 git apply "$D/demo.diff" || { echo "DEMO DOES NOT APPLY ON PATCH" >> "$LOG"; exit 1; }
 echo "== patch + demo: $FILTER" >> "$LOG"
-cargo test -p h3 --offline --lib "$FILTER" "$@" 2>&1 | grep -E "^test |^test result" >> "$LOG"
+${DEMO_CMD:-cargo test -p h3 --offline --lib "$FILTER" "$@"} 2>&1 | grep -E "^test |^test result" >> "$LOG"
 git checkout -q -- . && git clean -fdq && git apply "$D/demo.diff"
 echo "== demo only: $FILTER" >> "$LOG"
-cargo test -p h3 --offline --lib "$FILTER" "$@" 2>&1 | grep -E "^test |^test result" >> "$LOG"
+${DEMO_CMD:-cargo test -p h3 --offline --lib "$FILTER" "$@"} 2>&1 | grep -E "^test |^test result" >> "$LOG"
 echo "done" >> "$LOG"
